@@ -295,54 +295,100 @@ fn escape_case(input: &str, stored: &str, looked_up: &str) {
 
 // @tier quick
 // @timeout 900
-// @mem 12
-// @bounds concrete messages "a\\nb" (escape sequence) and "a<LF>b" (real newline) (solver-chosen arm)
+// @mem 16
+// @bounds the concrete message "a\\nb": an escape sequence between two letters
 // @unwindset memchr=40
 // @claims escape sequences are stored as real newlines, every newline comes back escaped, lone backslashes are untouched, and set(get(k)) is the identity on the stored text
+// @assume core::slice::memchr::memchr replaced by a plain loop (stubs.rs)
 #[kani::proof]
 #[kani::unwind(16)]
 #[kani::stub(core::slice::memchr::memchr, crate::stubs::memchr_model)]
-fn c07_newline_escaping_a() {
-    let sel: u8 = kani::any();
-    kani::assume(sel < 2);
-    if sel == 0 { escape_case("a\\nb", "a\nb", "a\\nb"); }
-    if sel == 1 { escape_case("a\nb", "a\nb", "a\\nb"); }
-    kani::cover!(sel == 1);
+fn c07_escaping_escape_sequence() {
+    escape_case("a\\nb", "a\nb", "a\\nb");
 }
 
 // @tier quick
 // @timeout 900
-// @mem 12
-// @bounds concrete messages with lone backslashes ("\\", "n\\") and the empty message (solver-chosen arm)
+// @mem 16
+// @bounds the concrete message "a<LF>b": a real newline
 // @unwindset memchr=40
 // @claims escape sequences are stored as real newlines, every newline comes back escaped, lone backslashes are untouched, and set(get(k)) is the identity on the stored text
+// @assume core::slice::memchr::memchr replaced by a plain loop (stubs.rs)
 #[kani::proof]
 #[kani::unwind(16)]
 #[kani::stub(core::slice::memchr::memchr, crate::stubs::memchr_model)]
-fn c07_newline_escaping_b() {
-    let sel: u8 = kani::any();
-    kani::assume(sel < 3);
-    if sel == 0 { escape_case("\\", "\\", "\\"); }
-    if sel == 1 { escape_case("n\\", "n\\", "n\\"); }
-    if sel == 2 { escape_case("", "", ""); }
-    kani::cover!(sel == 2);
+fn c07_escaping_real_newline() {
+    escape_case("a\nb", "a\nb", "a\\nb");
 }
 
 // @tier quick
 // @timeout 900
-// @mem 12
-// @bounds concrete messages "\\\\n" (backslash before an escape sequence) and two consecutive escape sequences (solver-chosen arm)
+// @mem 16
+// @bounds the concrete message "\\": a lone backslash
 // @unwindset memchr=40
 // @claims escape sequences are stored as real newlines, every newline comes back escaped, lone backslashes are untouched, and set(get(k)) is the identity on the stored text
+// @assume core::slice::memchr::memchr replaced by a plain loop (stubs.rs)
 #[kani::proof]
 #[kani::unwind(16)]
 #[kani::stub(core::slice::memchr::memchr, crate::stubs::memchr_model)]
-fn c07_newline_escaping_c() {
-    let sel: u8 = kani::any();
-    kani::assume(sel < 2);
-    if sel == 0 { escape_case("\\\\n", "\\\n", "\\\\n"); }
-    if sel == 1 { escape_case("\\n\\n", "\n\n", "\\n\\n"); }
-    kani::cover!(sel == 1);
+fn c07_escaping_lone_backslash() {
+    escape_case("\\", "\\", "\\");
+}
+
+// @tier quick
+// @timeout 900
+// @mem 16
+// @bounds the concrete message "n\\": the letter n followed by a backslash
+// @unwindset memchr=40
+// @claims escape sequences are stored as real newlines, every newline comes back escaped, lone backslashes are untouched, and set(get(k)) is the identity on the stored text
+// @assume core::slice::memchr::memchr replaced by a plain loop (stubs.rs)
+#[kani::proof]
+#[kani::unwind(16)]
+#[kani::stub(core::slice::memchr::memchr, crate::stubs::memchr_model)]
+fn c07_escaping_trailing_backslash() {
+    escape_case("n\\", "n\\", "n\\");
+}
+
+// @tier quick
+// @timeout 900
+// @mem 16
+// @bounds the concrete message the empty message
+// @unwindset memchr=40
+// @claims escape sequences are stored as real newlines, every newline comes back escaped, lone backslashes are untouched, and set(get(k)) is the identity on the stored text
+// @assume core::slice::memchr::memchr replaced by a plain loop (stubs.rs)
+#[kani::proof]
+#[kani::unwind(16)]
+#[kani::stub(core::slice::memchr::memchr, crate::stubs::memchr_model)]
+fn c07_escaping_empty() {
+    escape_case("", "", "");
+}
+
+// @tier quick
+// @timeout 900
+// @mem 16
+// @bounds the concrete message "\\\\n": a backslash before an escape sequence
+// @unwindset memchr=40
+// @claims escape sequences are stored as real newlines, every newline comes back escaped, lone backslashes are untouched, and set(get(k)) is the identity on the stored text
+// @assume core::slice::memchr::memchr replaced by a plain loop (stubs.rs)
+#[kani::proof]
+#[kani::unwind(16)]
+#[kani::stub(core::slice::memchr::memchr, crate::stubs::memchr_model)]
+fn c07_escaping_backslash_before_escape() {
+    escape_case("\\\\n", "\\\n", "\\\\n");
+}
+
+// @tier quick
+// @timeout 900
+// @mem 16
+// @bounds the concrete message two consecutive escape sequences
+// @unwindset memchr=40
+// @claims escape sequences are stored as real newlines, every newline comes back escaped, lone backslashes are untouched, and set(get(k)) is the identity on the stored text
+// @assume core::slice::memchr::memchr replaced by a plain loop (stubs.rs)
+#[kani::proof]
+#[kani::unwind(16)]
+#[kani::stub(core::slice::memchr::memchr, crate::stubs::memchr_model)]
+fn c07_escaping_two_escapes() {
+    escape_case("\\n\\n", "\n\n", "\\n\\n");
 }
 
 // @tier quick
